@@ -1,5 +1,5 @@
 (* Case runner and spec checker (T3) for C18. *)
-From WI Require Import Lib.Base Lib.Info Lib.Strings Lib.Time Model.Base64 Model.Jwt.
+From WI Require Import Lib.Base Lib.Info Lib.Strings Lib.Time Model.Base64 Model.Jwt Model.JwtJson.
 Open Scope N_scope.
 
 (* ================= decoding of the case input =================
@@ -11,7 +11,7 @@ Open Scope N_scope.
                                  kind 1 = near miss that must not be recognised
                                  kind 2 = not judged from the AST (malformed stream)
    hdr,pl = ((#key aval) ...) in serialisation order, duplicates possible
-   aval   = (0 #s) | (1 mant exp10) | (2 b) | (3) | (4) | (5)   number = mant * 10^exp10 *)
+   aval   = (0 #s) | (1 mant exp10) | (1 #magnitude exp10 negative) | (2 b) | (3) | (4) | (5)   number = mant * 10^exp10 *)
 Definition jval_of_arg (a : arg) : jvalue :=
   match a with
   | AL [AZ 0%Z; AB s] => JStr s
@@ -33,13 +33,42 @@ Fixpoint J_of (oracle : list arg) (b : bytes) : jres :=
   | o :: r => if bytes_eqb (arg_bytes (arg_nth 0 o)) b then jres_of_arg (arg_nth 1 o) else J_of r b
   end.
 
+(* the same shapes, written *)
+Definition arg_of_jval (v : jvalue) : arg :=
+  match v with
+  | JStr s => AL [AZ 0; AB s]
+  | JNum m e => AL [AZ 1; AZ m; AZ e]
+  | JBool b => AL [AZ 2; AZ (if b then 1 else 0)]
+  | JNull => AL [AZ 3]
+  | JArr => AL [AZ 4]
+  | JObj => AL [AZ 5]
+  end.
+Definition arg_of_jres (r : jres) : arg :=
+  match r with
+  | JRObject m => AL [AZ 0; AL (map (fun kv => AL [AB (fst kv); arg_of_jval (snd kv)]) m)]
+  | JRNull => AL [AZ 1]
+  | JRError => AL [AZ 2]
+  end.
+
+(* the name under which the harness stores the token for file.Inspect *)
+Definition inspect_name : bytes := bs "token.jwt".
+
+(* J: the reference reader of Model/JwtJson.v where it decides (everywhere except for number
+   literals of more than 1000 bytes), the recorded answer of the library elsewhere.
+   op json: the reader's answer for every decoded segment, compared with the library's.
+   op inspect: Inspect over the regenerated format table with the modelled recognisers IsJWT and
+   IsUUID and the modelled signature matching; the sniffers of the later rows are never asked for
+   a token (C18_dispatch), they are given as "no". *)
 Definition run_C18 (op : bytes) (input : arg) : arg :=
   let tok := arg_bytes (arg_nth 0 input) in
-  let J := J_of (arg_list (arg_nth 1 input)) in
+  let oracle := arg_list (arg_nth 1 input) in
+  let J := J_ref (J_of oracle) in
   if bytes_eqb op (bs "isjwt") then AL [AZ 0; ok_arg (is_jwt J tok)]
   else if bytes_eqb op (bs "parse") then obs_result (fun j => AB (j_sig j)) (parse_jwt J tok)
   else if bytes_eqb op (bs "describe") then AL [obs_result arg_of_info (jwt_data J tok)]
-  else if bytes_eqb op (bs "inspect") then obs_result arg_of_info (jwt_data J tok)
+  else if bytes_eqb op (bs "inspect") then
+    obs_result arg_of_info (inspect_jwt_quick J (fun _ _ => false) (fun _ _ => Err "not modelled") inspect_name tok)
+  else if bytes_eqb op (bs "json") then AL (map (fun o => arg_of_jres (J (arg_bytes (arg_nth 0 o)))) oracle)
   else AL [].
 
 (* ================= the spec checker =================
@@ -50,6 +79,8 @@ Definition aval_of_arg (a : arg) : aval :=
   match a with
   | AL [AZ 0%Z; AB s] => AStr s
   | AL [AZ 1%Z; AZ m; AZ e] => ANum m e
+  | AL [AZ 1%Z; AB mag; AZ e; AZ neg] =>      (* a mantissa that does not fit the integers of the case format *)
+      ANum (if Z.eqb neg 0 then Z.of_N (be_to_N mag) else - Z.of_N (be_to_N mag))%Z e
   | _ => AOther
   end.
 Definition aobj := list (bytes * aval).
@@ -127,14 +158,16 @@ Definition spec_int (s : bytes) : option Z :=
   | _ => spec_digits 0%Z s
   end.
 
-(* a JSON number mant*10^exp10 read as a double may move by one part in 2^53 *)
+(* a JSON number mant*10^exp10 read as a double may move by one part in 2^53; a number that is
+   not zero but closer to zero than half the smallest double (2^-1075) is read as zero *)
 Definition num_wants (m e : Z) : list want :=
   let num := (if 0 <=? e then m * 10 ^ e else m)%Z in
   let den := (if 0 <=? e then 1 else 10 ^ (- e))%Z in
   let p := (2 ^ 53)%Z in
   [date_want (num / den)%Z;
    date_want ((num * p - Z.abs num) / (den * p))%Z;
-   date_want ((num * p + Z.abs num) / (den * p))%Z].
+   date_want ((num * p + Z.abs num) / (den * p))%Z]
+  ++ (if (Z.abs num * 2 ^ 1075 <=? den)%Z then [date_want 0] else []).
 
 Definition wants_of (k : skind) (v : aval) : list want :=
   match k, v with
@@ -311,4 +344,18 @@ Definition check_C18 (op : bytes) (input impl : arg) : arg :=
     | AL [AZ 2%Z] => AS "failure of the program (panic)"
     | _ => if Z.eqb kind 0 then AS "well-formed JWT is not recognised" else AL []
     end
+  else if bytes_eqb op (bs "json") then
+    (* the hypothesis of C18_dispatch about the JSON library, on its answers of this case:
+       a text it decoded into a map starts with '{' or JSON white space (RFC 8259 section 2) *)
+    let oracle := arg_list (arg_nth 1 input) in
+    if forallb (fun p => match p with
+                         | (o, AL (AZ 0%Z :: _)) =>
+                             match arg_bytes (arg_nth 0 o) with
+                             | c :: _ => (c =? 123) || (c =? 32) || (c =? 9) || (c =? 10) || (c =? 13)
+                             | [] => false
+                             end
+                         | _ => true
+                         end) (combine oracle (arg_list impl))
+    then AL []
+    else AS "the JSON library decoded into a map a text that does not start with '{' or white space (hypothesis of C18_dispatch)"
   else AL [].
